@@ -17,14 +17,15 @@ TECHNIQUE = (
     "explicit-state breadth-first search over query histories on the real operator objects: a state is the history reaching it, rebuilt on a fresh object "
     "and replayed; states are merged on an exact fingerprint of the whole object graph (every _memoize_cache entry, every ad-hoc cache attribute, nested "
     "operators, settings point); on every transition the answer of the history object is compared with the same query on a freshly constructed copy and "
-    "with the dense reference model; caches transplanted onto derived operators are multiplied out against the derived dense matrix"
+    "with the dense reference model; caches transplanted onto derived operators are multiplied out against the derived dense matrix, and after every transition on a derived operator so are the "
+    "caches of every operator of its derivation chain (a query on a child must not corrupt what its ancestors have cached)"
 )
 RULE = (
     "initial states: all PD catalogue terms (depth-1; thorough adds PD depth-2 nestings at smaller depth) x batch {(),(2,)}; alphabet: to_dense, diagonal, matmul, "
     "cholesky(upper in {F,T}), root_decomposition(method), root_inv_decomposition(method), diagonalization(method), svd, eigh, eigvalsh, solve, logdet, "
     "inv_quad_logdet, inv_quad, _preconditioner, zero_mean_mvn_samples (identified as a linear map), settings flips between queries (max_cholesky_size 0/default, "
     "fast root decomposition, fast log_prob, fast solves, preconditioning on/off) and derivations (add_jitter, add_diagonal, add_low_rank with and without roots, "
-    "cat_rows with and without inverse roots, principal-submatrix index, mT, *2, expand) after which the search continues on the child; all histories up to the "
+    "cat_rows with and without inverse roots, leading and non-leading principal-submatrix index, mT, *2, expand) after which the search continues on the child; all histories up to the "
     "depth bound, successors of already-seen fingerprints pruned; non-trivial = the history before the query is non-empty; distinct = (case, fingerprint, query)"
 )
 ASSUMPTIONS = [
